@@ -25,6 +25,7 @@ EXPLANATION = (
     "NOT decided: minimality; that complement removal preserves the optimum."
     ' (R2, round 3) the first k tried is at least 1.'
     ' (R7, hunt 4) the partition sums are compared exactly when integral and within the rounding error of the sum otherwise (no fixed tolerance).'
+    ' (R8, hunt 5) the numbers the lower-bound helpers of MinFlowDecomp(.Cycles) hand to MinGenSet are summed as Python numbers (np.uint8 169 + 170 + 171 = 254 gave the bound 4 for three disjoint routes), MinGenSet stores max_multiplicity as a Python number, and MinFlowDecompCycles leaves its helper before it passes a flow value below 1 as that count.'
 )
 DECIDED = ["formulation of both models", "search protocol and range of MinGenSet", "documented None defaults are usable", "complement removal is strict"]
 NOT_DECIDED = ["the returned multiset / cover is minimum", "complement removal is optimum preserving (number-theoretic argument)"]
